@@ -152,7 +152,7 @@ public:
         auto fi = QFileInfo(q_ptr->file()->fileName());
         const auto baseName = fi.completeBaseName();
         const auto suffix = fi.suffix();
-        const auto dateStr = date.toString(QStringLiteral("yyyy-MM-dd"));
+        const auto dateStr = date.toString(Qt::ISODate);
 
         QString rotatedName;
         if (suffix.isEmpty()) {
@@ -170,7 +170,7 @@ public:
         auto fi = QFileInfo(q_ptr->file()->fileName());
         const auto baseName = fi.completeBaseName();
         const auto suffix = fi.suffix();
-        const auto dateStr = date.toString(QStringLiteral("yyyy-MM-dd"));
+        const auto dateStr = date.toString(Qt::ISODate);
 
         QString pattern;
         if (suffix.isEmpty()) {
